@@ -347,6 +347,31 @@ shape_case(int iv, int shape, int si, size_t n)
 	tool_run("long format", class, fine, (double)n, cas, argc, argv, v->in, 0);
 }
 
+/* ---- formats with a byte >= 0x80 among the first four ---- */
+static void
+highbyte_case(int iv, int k)
+{
+	const struct inv *v = invs + iv;
+	const char *argv[8];
+	char fmt[32], class[160], fine[64], cas[64];
+	static const char *const tails[] = {"%F", "%d", "", "ymd"};
+	int argc = 0, ins = k % XH_NINS, pos = (k / XH_NINS) % 4, tl = k / (XH_NINS * 4);
+	size_t n = 0;
+
+	for (int i = 0; i < pos; i++) {
+		fmt[n++] = 'a';
+	}
+	n += (size_t)snprintf(fmt + n, sizeof(fmt) - n, "%s%s", xh_ins[ins], tails[tl]);
+	for (int i = 0; i < 8 && v->argv[i]; i++) {
+		argv[argc++] = !strcmp(v->argv[i], "@") ? fmt : v->argv[i];
+	}
+	snprintf(class, sizeof(class), "[%s]", v->name);
+	snprintf(fine, sizeof(fine), "byte 0x%02x at position %d", (unsigned char)xh_ins[ins][0], pos);
+	snprintf(cas, sizeof(cas), "H %d %d", iv, k);
+	tool_run("format with a byte >= 0x80", class, fine, (double)pos, cas, argc, argv, v->in, 0);
+}
+#define NHIGH	(XH_NINS * 4 * 4)
+
 /* ---- texts that are not dates ---- */
 static const char *const not_dates[] = {
 	"xyzzy", "", "2012", "2012-", "2012-13-01x", "-", "12:", "@", "@x", "99999999999999999999", "\x01", "2012-03-04x", "now!", "20 12-03-04",
@@ -805,6 +830,8 @@ main(int argc, char *argv[])
 		if (sscanf(ex.cas, "S %d %d %d %zu", &iv, &sh, &si, &n) == 4 && iv >= 0 && iv < NINV && sh >= 0 && sh < NSHAPE && si >= 0 &&
 		    si < (invs[iv].dur ? NUSPEC : NDSPEC) && n < 380) {
 			shape_case(iv, sh, si, n);
+		} else if (ex.cas[0] == 'H' && sscanf(ex.cas, "H %d %d", &iv, &k) == 2 && iv >= 0 && iv < NINV && k >= 0 && k < NHIGH) {
+			highbyte_case(iv, k);
 		} else if ((ex.cas[0] == 'N' || ex.cas[0] == 'M') && sscanf(ex.cas + 1, " %d", &k) == 1 && k >= 0 && k < NNOT) {
 			notdate_case(k);
 #if defined TOOL_dadd || defined TOOL_dround || defined TOOL_dseq
@@ -873,7 +900,7 @@ main(int argc, char *argv[])
 
 	ex_meta("rule", TOOLNAME " main() in a forked child per run (argv in exact-size heap blocks, stdin scripted, clock fixed at 2012-03-04T12:00:00Z, environment LC_ALL=C TZ=UTC). "
 		"Long formats: total length %d..%d, shapes {padding+spec, spec+padding, spec repeated} x %d date / %d duration specifiers (incl. truncated ones and backslash escapes) x %d invocation "
-		"classes of this tool; %d texts that are no dates (must be refused / passed through)"
+		"classes of this tool; %d texts that are no dates (must be refused / passed through); formats with 0x80, 0xc3, 0xff or UTF-8 e-acute at positions 0..3 in every invocation class"
 #if defined TOOL_dgrep
 		"; every string over {%% Y m = < > & | ! ( 2 SPC} as expression"
 #endif
@@ -915,6 +942,15 @@ main(int argc, char *argv[])
 	for (int k = 0; k < NNOT && !ex_expired(); k++, slice++) {
 		if (ex_mine(slice)) {
 			notdate_case(k);
+		}
+	}
+	for (int iv = 0; iv < NINV && !ex_expired(); iv++) {
+		for (int k = 0; k < NHIGH; k += 8, slice++) {
+			if (ex_mine(slice)) {
+				for (int j = k; j < k + 8 && j < NHIGH; j++) {
+					highbyte_case(iv, j);
+				}
+			}
 		}
 	}
 #if defined TOOL_dadd || defined TOOL_dround || defined TOOL_dseq
